@@ -518,3 +518,5 @@ def run(chk):
     c08.rule_fanout(chk)   # what a destination that accepted every message observes while others fail
     c08.rule_report_path(chk)
     c08.rule_report_logger(chk)
+    from . import integration
+    integration.dask_continuation(chk, chk.pid)  # eliot.dask hands one serialized id to each wrapped task
